@@ -11,7 +11,7 @@
         same predicate ([fo_tunnel]);
     (iv) as (ii) and (iii) under [Registry + CaptureLayer + predicate layer], the two storages being
         dumped through the public API and compared by the harness ([fo_snap]). *)
-From TT Require Export Tunnel.Tunnel.
+From TT Require Export Base.Worst Tunnel.Tunnel.
 From TT Require Import Values.ValuesProofs Tunnel.TypesProofs Tunnel.TunnelProofs.
 From stdpp Require Import gmap.
 
@@ -20,7 +20,11 @@ Record fobs := mk_fobs {
   fo_native : list scall;
   fo_tunnel : list hcall;
   fo_accepted : bool;          (* every [try_receive] returned [Ok] *)
-  fo_snap : bool }.
+  fo_snap : bool;              (* native and tunnelled forests equal under Registry + CaptureLayer + a global filter layer *)
+  (* the same under a host that filters inside the capture layer ([CaptureLayer::with_filter], the
+     filter memoising its verdict per call-site identifier): the one host configuration whose filter
+     the receiver cannot bypass, so the forests must be equal inside the known class as well *)
+  fo_layer_snap : bool }.
 
 Definition cmid : nat -> N := N.of_nat.
 
@@ -54,14 +58,15 @@ Definition c13_delivered (f : hfilter) (p : prog) (o : fobs) : bool :=
 Definition c13_ok (f : hfilter) (p : prog) (o : fobs) : bool :=
   fo_accepted o && c13_delivered f p o
   && list_eqb hc_eqb (strip_reg (fo_tunnel o)) (strip_reg (canon (normalise (p_sites p) (fo_native o))))
-  && fo_snap o.
+  && fo_snap o && fo_layer_snap o.
 
 (** the recorded deviation of the known class (F7): the host receives the unfiltered trace
     (C13_enabled_still_delivered), nothing is rejected and everything enabled is delivered *)
 Definition c13_recorded (f : hfilter) (p : prog) (o : fobs) : bool :=
   fo_accepted o && c13_delivered f p o
   && list_eqb hc_eqb (strip_reg (fo_tunnel o))
-                     (map unroot (strip_reg (normalise (p_sites p) (fo_unfiltered o)))).
+                     (map unroot (strip_reg (normalise (p_sites p) (fo_unfiltered o))))
+  && fo_layer_snap o.
 
 (** known class 1 (host-filter-ignored) *)
 Definition judge_c13 (f : hfilter) (p : prog) (o : fobs) : verdict :=
@@ -97,7 +102,7 @@ Theorem judge_c13_agree f p o :
   op_calls (fo_native o) = op_calls (native_calls (c13_enabled f p) p)
   /\ strip_reg (fo_tunnel o) = strip_reg (tunnel_calls cmid p)
   /\ strip_reg (fo_tunnel o) = strip_reg (canon (normalise (p_sites p) (fo_native o)))
-  /\ fo_accepted o = true /\ fo_snap o = true.
+  /\ fo_accepted o = true /\ fo_snap o = true /\ fo_layer_snap o = true.
 Proof.
   unfold judge_c13. destruct (c13_hyp p); [|discriminate]. cbn [negb].
   destruct (c13_ok f p o) eqn:E1; [|destruct (_ && _); discriminate]. cbn [negb].
@@ -113,7 +118,7 @@ Qed.
     class), and [Agree] outside the class *)
 Definition model_fobs (f : hfilter) (p : prog) : fobs :=
   mk_fobs (native_calls all_enabled p) (native_calls (c13_enabled f p) p) (tunnel_calls cmid p)
-          (forallb is_accepted_o (tunnel_outcomes cmid p)) true.
+          (forallb is_accepted_o (tunnel_outcomes cmid p)) true true.
 
 Lemma cmid_inj a b : cmid a = cmid b -> a = b.
 Proof. unfold cmid. lia. Qed.
@@ -124,7 +129,8 @@ Proof.
   intros Hh. unfold c13_hyp in Hh. apply andb_true_iff in Hh as [Hh Hk].
   apply andb_true_iff in Hh as [Hh Hb]. apply andb_true_iff in Hh as [Hwf Hst]. apply N.leb_le in Hb.
   destruct (tunnel_is_identity_upto_root_proof cmid p cmid_inj Hwf Hb) as [Hr Ho].
-  unfold c13_recorded, c13_delivered, model_fobs. cbn [fo_unfiltered fo_native fo_tunnel fo_accepted].
+  unfold c13_recorded, c13_delivered, model_fobs. cbn [fo_unfiltered fo_native fo_tunnel fo_accepted fo_layer_snap].
+  rewrite andb_true_r.
   apply andb_true_iff. split; [apply andb_true_iff; split|].
   - rewrite Ho. apply forallb_forall. intros x Hx. apply repeat_spec in Hx. subst x. reflexivity.
   - apply hcalls_eqb_spec. exact (enabled_subtrace_proof (eval_filter f) cmid p cmid_inj Hwf Hb).
@@ -140,9 +146,10 @@ Proof.
   unfold c13_hyp in Hh. apply andb_true_iff in Hh as [Hh Hk]. apply negb_true_iff in Hk.
   apply andb_true_iff in Hh as [Hh Hb]. apply andb_true_iff in Hh as [Hwf Hst]. apply N.leb_le in Hb.
   pose proof (tunnel_is_native_filtered_proof _ cmid p cmid_inj Hwf Hst Hb Hk Hf) as Hfull.
-  unfold c13_recorded in Hrec. apply andb_true_iff in Hrec as [Hrec _]. apply andb_true_iff in Hrec as [Ha Hd].
+  unfold c13_recorded in Hrec. apply andb_true_iff in Hrec as [Hrec _]. apply andb_true_iff in Hrec as [Hrec _].
+  apply andb_true_iff in Hrec as [Ha Hd].
   assert (E1 : c13_ok f p (model_fobs f p) = true).
-  { unfold c13_ok. rewrite Ha, Hd. cbn [andb model_fobs fo_native fo_tunnel fo_snap]. rewrite andb_true_r.
+  { unfold c13_ok. rewrite Ha, Hd. cbn [andb model_fobs fo_native fo_tunnel fo_snap fo_layer_snap]. rewrite !andb_true_r.
     apply hcalls_eqb_spec. exact Hfull. }
   assert (E3 : c13_corr f p (model_fobs f p) = true).
   { unfold c13_corr, model_fobs, tunnel_calls_under. cbn [fo_unfiltered fo_native fo_tunnel fo_accepted].
@@ -166,14 +173,14 @@ Example judge_c13_detects :
      the property: only the correspondence with the current model would break *)
   /\ judge_c13 info p
        (mk_fobs (native_calls all_enabled p) (native_calls (c13_enabled info p) p)
-                (normalise (p_sites p) (native_calls (c13_enabled info p) p)) true true) = Mismatch
+                (normalise (p_sites p) (native_calls (c13_enabled info p) p)) true true true) = Mismatch
   (* an event rejected because of the filter *)
   /\ judge_c13 info p
        (mk_fobs (native_calls all_enabled p) (native_calls (c13_enabled info p) p)
-                (tunnel_calls cmid p) false true) = PropFail
+                (tunnel_calls cmid p) false true true) = PropFail
   (* an enabled event lost on the way *)
   /\ judge_c13 debug p
        (mk_fobs (native_calls all_enabled p) (native_calls all_enabled p)
                 (List.filter (fun c => match c with HEvent _ _ _ => false | _ => true end) (tunnel_calls cmid p))
-                true true) = PropFail.
+                true true true) = PropFail.
 Proof. vm_compute. repeat split. Qed.
